@@ -464,5 +464,7 @@ def make_scenario(seed, profile=None, index=0):
                                             for _ in range(rng.randrange(1, 4))])
     scn["clock"] = clock
     scn["faults"] = []
+    # how the (well-behaved) target spells its finite real scalar: python float, numpy scalar, 1-element or 0-d array
+    scn["ret_type"] = _choice(rng, ["float", "np64", "arr1", "arr0"], prof.get("ret_type_w", [6, 2, 1, 1]))
     scn["monitors"] = list(prof.get("monitors", []))
     return scn
